@@ -528,9 +528,13 @@ fn check_udp(rep: &mut Reporter, c: &UdpCase) {
         Expect::Ok(m) => {
             rep.count("udp_model_ok");
             if accepted != Some(m) {
+                // signature: expected → observed (with the kind accepted instead), and for a lost
+                // reply the kind of the datagram that should have been skipped just before it
+                let before = if o.result.is_err() { seen.iter().rev().nth(1).map(|s| s.as_str()).unwrap_or("first") } else { "-" };
+                let obs_sig = if o.result.is_err() { "err" } else { obs_s.as_str() };
                 rep.violation(
                     "outcome",
-                    &format!("ok:{}->{}|{}", o.dgs[m].kind, obs_s.split(':').next().unwrap_or(""), seen.join(",")),
+                    &format!("ok:{}->{}|after:{}", o.dgs[m].kind, obs_sig, before),
                     case.clone(),
                     json!({"ok_with": o.dgs[m].kind, "examined_before": seen}),
                     json!(obs_s),
@@ -540,7 +544,7 @@ fn check_udp(rep: &mut Reporter, c: &UdpCase) {
         Expect::Err(why) => {
             rep.count(&format!("udp_model_err/{why}"));
             if o.result.is_ok() {
-                rep.violation("outcome", &format!("err:{why}->ok|{}", seen.join(",")), case.clone(), json!({"err": why, "examined": seen}), json!(obs_s));
+                rep.violation("outcome", &format!("err:{why}->{obs_s}"), case.clone(), json!({"err": why, "examined": seen}), json!(obs_s));
             }
             if why == "timeout" && o.result.is_err() {
                 rep.count("udp_timeouts");
@@ -651,6 +655,9 @@ struct ConnState {
     waker: Option<Waker>,
     closed: bool,
     delivered_msgs: usize,
+    /// messages handed out since the stream last returned Pending, and the longest such run
+    run_len: usize,
+    max_run: usize,
 }
 
 impl ConnState {
@@ -682,6 +689,8 @@ impl Stream for ScriptedClientStream {
         match s.inbound.pop_front() {
             Some(InEv::Msg(b)) => {
                 s.delivered_msgs += 1;
+                s.run_len += 1;
+                s.max_run = s.max_run.max(s.run_len);
                 Poll::Ready(Some(Ok(SerialMessage::new(b, server()))))
             }
             Some(InEv::Close) => {
@@ -693,6 +702,7 @@ impl Stream for ScriptedClientStream {
                 Poll::Ready(Some(Err(NetError::from(std::io::Error::new(std::io::ErrorKind::ConnectionReset, "simnet: reset")))))
             }
             None => {
+                s.run_len = 0;
                 s.waker = Some(cx.waker().clone());
                 Poll::Pending
             }
@@ -855,7 +865,7 @@ fn run_mux(c: &MuxCase) -> Result<MuxRun, mon::PanicRecord> {
             let mut run = MuxRun { viols: Vec::new(), counts: BTreeMap::new(), max_in_flight: 0 };
             let epoch = tokio::time::Instant::now();
             let (handle, rx) = BufDnsStreamHandle::new(server());
-            let conn = Arc::new(Mutex::new(ConnState { rx, outbound: Vec::new(), inbound: VecDeque::new(), waker: None, closed: false, delivered_msgs: 0 }));
+            let conn = Arc::new(Mutex::new(ConnState { rx, outbound: Vec::new(), inbound: VecDeque::new(), waker: None, closed: false, delivered_msgs: 0, run_len: 0, max_run: 0 }));
             let mut mux = DnsMultiplexer::new(ScriptedClientStream(conn.clone()), handle).with_timeout(timeout).with_max_active_requests(c.max_active);
             let (_flag, waker) = FlagWaker::new();
             let mut cx = Context::from_waker(&waker);
@@ -1201,7 +1211,8 @@ fn gen_mux_case(r: &mut Rng) -> MuxCase {
 #[derive(Clone, Debug)]
 struct ExCase {
     k: usize,
-    /// per step: ["answer", j] | ["dup", j] | ["unknown", salt] | ["garbage"] | ["sleep", ms]
+    /// per step: ["answer", j] | ["dup", j] | ["unknown", salt] | ["garbage"] | ["sleep", ms] |
+    /// ["burst", n, mode, j] (n back-to-back responses: mode 0 unknown ids, mode 1 duplicates for j)
     script: Vec<Value>,
     /// "close" | "fail" | "never"
     end: String,
@@ -1226,7 +1237,7 @@ fn check_exchange(rep: &mut Reporter, c: &ExCase) {
         rt.block_on(async move {
             let c = cc;
             let (handle, rx) = BufDnsStreamHandle::new(server());
-            let conn = Arc::new(Mutex::new(ConnState { rx, outbound: Vec::new(), inbound: VecDeque::new(), waker: None, closed: false, delivered_msgs: 0 }));
+            let conn = Arc::new(Mutex::new(ConnState { rx, outbound: Vec::new(), inbound: VecDeque::new(), waker: None, closed: false, delivered_msgs: 0, run_len: 0, max_run: 0 }));
             let mux = DnsMultiplexer::new(ScriptedClientStream(conn.clone()), handle).with_timeout(Duration::from_millis(c.timeout_ms)).with_max_active_requests(64);
             let net = UdpNet::new(Box::new(|_| vec![]));
             let provider = SimRuntime::new(net);
@@ -1312,6 +1323,31 @@ fn check_exchange(rep: &mut Reporter, c: &ExCase) {
                         g.extend_from_slice(&marker_rdata(m));
                         conn.lock().unwrap().push(InEv::Msg(g));
                     }
+                    "burst" => {
+                        // n responses back to back: to unknown ids (mode 0) or duplicates for request j (mode 1)
+                        let n = step[1].as_u64().unwrap_or(100) as usize;
+                        let dup_for = if step[2].as_u64().unwrap_or(0) == 1 { step[3].as_u64().map(|x| x as usize).filter(|j| ids.contains_key(j)) } else { None };
+                        let mut uid = 0x5000u16;
+                        for _ in 0..n {
+                            let m = markers.len();
+                            match dup_for {
+                                Some(j) => {
+                                    let id = ids[&j];
+                                    markers.push(MarkerInfo { id, target: Some(j), kind: "answer" });
+                                    owed.entry(j).or_default().push(m);
+                                    conn.lock().unwrap().push(InEv::Msg(stream_response(id, j, m)));
+                                }
+                                None => {
+                                    while ever.contains(&uid) {
+                                        uid = uid.wrapping_add(1);
+                                    }
+                                    markers.push(MarkerInfo { id: uid, target: None, kind: "unknown" });
+                                    conn.lock().unwrap().push(InEv::Msg(stream_response(uid, 9999, m)));
+                                    uid = uid.wrapping_add(1);
+                                }
+                            }
+                        }
+                    }
                     "sleep" => tokio::time::sleep(Duration::from_millis(step[1].as_u64().unwrap_or(1))).await,
                     _ => {}
                 }
@@ -1329,10 +1365,11 @@ fn check_exchange(rep: &mut Reporter, c: &ExCase) {
             }
             let waited = t_end.elapsed();
             bg_task.abort();
-            (ids, markers, owed, results, waited)
+            let max_run = conn.lock().unwrap().max_run;
+            (ids, markers, owed, results, waited, max_run)
         })
     });
-    let (ids, markers, owed, results, waited) = match out {
+    let (ids, markers, owed, results, waited, max_run) = match out {
         Ok(x) => x,
         Err(p) => {
             rep.violation("panic", &format!("exchange|{}", p.site()), case, json!("no panic"), json!({"panic": p.message, "at": p.location}));
@@ -1352,6 +1389,14 @@ fn check_exchange(rep: &mut Reporter, c: &ExCase) {
         rep.nontrivial(fnv64(case.to_string().as_bytes()));
         rep.count("ex_nontrivial");
     }
+    // The multiplexer read ≥ 100 messages in a row without the connection ever reporting Pending:
+    // symptoms of that situation are reported under one signature of their own.
+    let qos_run = max_run >= 100;
+    rep.max("ex_max_messages_without_pending", max_run as f64);
+    if qos_run {
+        rep.count("ex_cases_with_100_message_run");
+    }
+    let mut stall_symptoms: Vec<String> = Vec::new();
     let mut surfaced: BTreeSet<usize> = BTreeSet::new();
     for (j, res) in results.iter().enumerate() {
         let got = match res {
@@ -1390,7 +1435,9 @@ fn check_exchange(rep: &mut Reporter, c: &ExCase) {
         let want = owed.get(&j).cloned().unwrap_or_default();
         // at most 6 unread responses per request are owed (channel capacity is a don't-care)
         let want_cap: Vec<usize> = want.iter().copied().take(6).collect();
-        if oks.len() < want_cap.len() || oks[..want_cap.len()] != want_cap[..] {
+        if (oks.len() < want_cap.len() || oks[..want_cap.len()] != want_cap[..]) && qos_run {
+            stall_symptoms.push(format!("request {j}: owed {:?}, received {:?}, items {:?}", want_cap, oks, got));
+        } else if oks.len() < want_cap.len() || oks[..want_cap.len()] != want_cap[..] {
             rep.violation(
                 "delivery",
                 &format!("missing|{}", if oks.is_empty() { "none-arrived" } else { "some-arrived" }),
@@ -1416,13 +1463,24 @@ fn check_exchange(rep: &mut Reporter, c: &ExCase) {
         "close" | "fail" => {
             rep.count("ex_closes");
             // all request tasks must finish at the close instant, not at their timeouts
-            if waited > Duration::from_millis(2) {
+            if waited > Duration::from_millis(2) && qos_run {
+                stall_symptoms.push(format!("connection closed, requests still pending {} ms later", waited.as_millis()));
+            } else if waited > Duration::from_millis(2) {
                 rep.violation("close", "pending-after-close", case.clone(), json!("every pending request fails when the connection closes"), json!({"waited_ms": waited.as_millis() as u64, "timeout_ms": c.timeout_ms}));
             }
         }
         _ => {
             rep.count("ex_never_closed");
         }
+    }
+    if !stall_symptoms.is_empty() {
+        rep.violation(
+            "delivery",
+            "stalled|after-run-of-100-messages",
+            case.clone(),
+            json!("responses that arrived reach their pending requests; a closed connection fails pending requests at once"),
+            json!({"messages_read_without_pending": max_run, "symptoms": stall_symptoms.iter().take(4).collect::<Vec<_>>()}),
+        );
     }
     rep.sample(|| json!({"case": {"mode": "exchange", "k": c.k, "steps": c.script.len(), "end": c.end}}));
 }
@@ -1440,6 +1498,14 @@ fn gen_ex_case(r: &mut Rng) -> ExCase {
             3 => json!(["garbage"]),
             _ => json!(["sleep", *r.pick(&[1u64, 5, 50])]),
         });
+    }
+    if r.chance(1, 25) {
+        // a long run of back-to-back responses somewhere in the script, then one more answer
+        let n = *r.pick(&[40u64, 98, 99, 100, 101, 130]);
+        let at = r.usize_below(script.len() + 1);
+        let j = r.usize_below(k);
+        script.insert(at, json!(["burst", n, r.below(2), j]));
+        script.insert(at + 1, json!(["answer", r.usize_below(k)]));
     }
     ExCase { k, script, end: r.pick(&["close", "close", "fail", "never"]).to_string(), timeout_ms: *r.pick(&[1000u64, 5000]) }
 }
